@@ -670,7 +670,7 @@ func init() {
 			"(closing bracket/quote: anything; numeral: nothing that continues a numeral; @name: a separator, no '|'; inline annotation: a line break; */: a separator). " +
 			"Oracle: Len == len(rtrim(S)); that prefix has S's Check verdict, GetAST and verdicts on 6 documents. Negative: S cut inside a string, inside a keyword/numeral, or with open brackets (also p=0), followed by " +
 			"upper-case directive text without closers -> Len must return an error. JSON expectations are cross-checked with encoding/json's Decoder offset. " +
-			"Non-trivial = a distinct accepted text S for which trailers were judged.",
+			"Non-trivial = a distinct accepted text S for which trailers were judged. Schemas whose last token is a block comment: Len must be the end of the comment or of the schema proper (kind len-comment).",
 		Assumptions: []string{
 			"a user comment after the last token of S, text on the line of a trailing inline annotation, and empty / blank-only input are not decided by the statement and are not generated",
 			"a foreign upper-case letter directly behind a root numeral or literal (JSON \"1x\") is read as covered by the statement (the text cannot continue the numeral); 'E' is excluded",
